@@ -45,7 +45,8 @@ def gen_dump(rnd, big=False, allow_zero_tid=True, residue_case=False, world=None
     w = world or World(rnd, big_tids=False, allow_zero_tid=allow_zero_tid)
     g = gen.ProgGen(w, rnd, ntids=3, noise=0.02)
     pids = {1: 11, 2: 12, 3: rnd.choice([13, 0])}
-    names = {11: 'alpha', 12: 'beta', 13: 'gamma', 14: 'delta', 0: 'kernel_task'}
+    # a process NAME may consist of digits and coincide with another process's pid
+    names = {11: rnd.choice(['alpha', 'alpha', '12']), 12: 'beta', 13: rnd.choice(['gamma', '2048']), 14: 'delta', 0: 'kernel_task'}
     items = []
     # parent threads announce other threads; strings announced on one thread are used on another
     for _ in range(rnd.randrange(3, 8 if not big else 16)):
@@ -71,7 +72,7 @@ def gen_dump(rnd, big=False, allow_zero_tid=True, residue_case=False, world=None
                 name = 'BSC_open'
             items.append([w.sys(name, 1, t)] + g.lookups(t, rnd.choice([0, 1, 2])) + [w.sys(name, 2, t)])
         elif r < 0.45:
-            items.append([w.ntd(t, o, rnd.choice([11, 12, 14, 0])), w.nts(t, rnd.choice(['alpha', 'delta', 'newp']))])
+            items.append([w.ntd(t, o, rnd.choice([11, 12, 14, 0])), w.nts(t, rnd.choice(['alpha', 'delta', 'newp', '14', '2048']))])
         elif r < 0.55:
             items.append([w.thd(t, rnd.choice([12, 14]), rnd.choice([t, o]))])
         elif r < 0.65:
@@ -102,7 +103,7 @@ def gen_dump(rnd, big=False, allow_zero_tid=True, residue_case=False, world=None
 def gen_cfg(rnd):
     return {'ftid': rnd.choice([0, 0, 1, 2, 3, 9]),
             'fproc': rnd.choice([{'kind': 'none'}, {'kind': 'none'}, {'kind': 'pid', 'pid': rnd.choice([11, 12, 14, 0])},
-                                 {'kind': 'name', 'name': rnd.choice(['alpha', 'beta', 'delta', 'newp', ''])}]),
+                                 {'kind': 'name', 'name': rnd.choice(['alpha', 'beta', 'delta', 'newp', '', '12', '14', '2048', '014'])}]),
             'fclass': list(rnd.choice(CLASS_LISTS)), 'fsub': list(rnd.choice(SUB_LISTS))}
 
 
